@@ -1,5 +1,5 @@
 \* thorough: the verifier as the code is: sound and complete except for the named known forgeries
-CONSTANTS NK = 5  NV = 1  MaxVersion = 2  WithDelete = FALSE  WithOverwrite = FALSE
+CONSTANTS NK = 5  NV = 1  MaxVersion = 3  WithDelete = FALSE  WithOverwrite = FALSE
           RecordHist = TRUE  KeepStates = FALSE  CoverDepth = 100
           RejectBothChildren = FALSE  RequireLeftmostInner = FALSE  RejectDuplicateStore = FALSE
 INIT Init
